@@ -137,7 +137,7 @@ def main():
                 "quick_cmd": f"./run {id} quick",
                 "thorough_cmd": f"./run {id} thorough",
                 "evidence_file": f"/verif/evidence/{id}.json",
-                **({"replay_cmd_template": "./run replay {path}"} if id in ("C01", "C02", "C03", "C04") else {}),
+                "replay_cmd_template": "./run replay {path}",
                 "engine": c["engine"],
                 "level_claimed": {"category": c["category"], "text": c["text"], "design_ref": c["ref"]},
                 "level_note": c["note"],
